@@ -167,7 +167,15 @@ def execute_simulation_sample_unit(
                 )
             else:
                 generation_setting = generation_settings.tester_settings[i]
-                tester_objects.append(generation_setting.generate())
+                _g = generation_setting.generate
+                if (
+                    "seed_or_generator"
+                    in _g.__code__.co_varnames[: _g.__code__.co_argcount]
+                ):
+                    # random generation settings must draw from the seeded stream
+                    tester_objects.append(_g(seed_or_generator=stream_qoperation))
+                else:
+                    tester_objects.append(_g())
 
     true_object = true_object[0] if type(true_object) == tuple else true_object
     tester_objects = [
